@@ -69,6 +69,9 @@ TECHNIQUE = "Lean 4 proof (list-sum algebra over a commutative ring, decide on w
 MODEL_VARIANT = "code"
 FINDING_KEY = "fmm-segment-space-point-maps"
 TOL = 1e-11
+QUICK_BUDGET_S = float(os.environ.get("C17_QUICK_BUDGET_S", "170"))  # quick tier: optional oracle items (second family, dual test space, second potential) start only
+#                       while the run is younger than this; the Laplace single layer whole/segment/two-grid cases and
+#                       the single-layer potential always run
 
 
 def generate(ctx):
@@ -150,6 +153,19 @@ def _space_block(space, local_points):
     toks += [_rat(v) for v in basis.ravel()]
     toks += [_rat(v) for v in grid.integration_elements]
     return toks, basis
+
+
+def _point_cloud(grid, local_points):
+    """element-major point cloud P[npts*e+q] = v0 + (v1-v0) x_q + (v2-v0) y_q, computed from the vertices"""
+    import numpy as np
+    V, E = grid.vertices, grid.elements
+    npts = local_points.shape[1]
+    P = np.empty((npts * grid.number_of_elements, 3))
+    for e in range(grid.number_of_elements):
+        v0, v1, v2 = (V[:, E[i, e]] for i in range(3))
+        for q in range(npts):
+            P[npts * e + q] = v0 + (v1 - v0) * local_points[0, q] + (v2 - v0) * local_points[1, q]
+    return P
 
 
 def _parse_entries(ans):
@@ -404,8 +420,15 @@ def correspondence(ctx):
                         st = "ok"
                     except ValueError:
                         st, yf, yd = "value-error", None, None
-                    PS = gridS.map_to_point_cloud(order)
-                    PT = gridT.map_to_point_cloud(order)
+                    PS = _point_cloud(gridS, lp)
+                    PT = _point_cloud(gridT, lp)
+                    for g_, P_ in ((gridS, PS), (gridT, PT)):
+                        real = g_.map_to_point_cloud(order)
+                        res.case(None)
+                        if real.shape != P_.shape or np.max(np.abs(real - P_)) > 1e-14 * (1 + np.max(np.abs(P_))):
+                            res.disagree("point cloud is not in element-major order npts*e+q", order=order,
+                                         elements=int(g_.number_of_elements), impl_first=real[:4].tolist(),
+                                         model_first=P_[:4].tolist())
                     diff = PT[:, None, :] - PS[None, :, :]
                     r = np.sqrt(np.sum(diff * diff, axis=2))
                     K = np.where(r == 0, 0.0, 1.0 / (4 * np.pi * np.where(r == 0, 1.0, r)))
@@ -558,6 +581,36 @@ def _mkspace(api, grid, kind, variant):
     return None
 
 
+def _base_space(sp):
+    """The space `sp` without its dof transformation (same grid, dof maps, multipliers, evaluators): the dense
+    assembler rejects spaces with a dof transformation, so the dense counterpart of an operator on barycentric /
+    dual spaces is  D_test^T . dense(base spaces) . D_domain  (that is what the dof transformation means)."""
+    from bempp_cl.api.space.space import SpaceBuilder, invert_local2global
+    b = (SpaceBuilder(sp.grid).set_codomain_dimension(sp.codomain_dimension).set_support(sp.support)
+         .set_normal_multipliers(sp.normal_multipliers).set_order(sp.order).set_shapeset(sp.shapeset.identifier)
+         .set_identifier(sp.identifier).set_local2global(sp.local2global)
+         .set_global2local(invert_local2global(sp.local2global, sp.local_multipliers))
+         .set_local_multipliers(sp.local_multipliers).set_numba_evaluator(sp.numba_evaluate)
+         .set_numba_surface_gradient(sp.numba_surface_gradient if sp.has_surface_gradient else None)
+         .set_numba_surface_curl(sp.numba_surface_curl if sp.has_surface_curl else None)
+         .set_is_localised(False))
+    return b.build()
+
+
+def _dense_reference(mk, dom, dual):
+    """dense weak form as a matrix; for spaces with a dof transformation through the base spaces"""
+    import numpy as np
+    from bempp_cl.api.space.space import return_compatible_representation
+    if not (dom.requires_dof_transformation or dual.requires_dof_transformation or dom.is_barycentric
+            or dual.is_barycentric):
+        return mk(dom, dual, dual, "dense").weak_form(), "direct"
+    d2, t2 = return_compatible_representation(dom, dual)
+    A = mk(_base_space(d2), _base_space(t2), _base_space(t2), "dense").weak_form().to_dense()
+    Dd = d2.dof_transformation.toarray()
+    Dt = t2.dof_transformation.toarray()
+    return Dt.T @ A @ Dd, "base-spaces"
+
+
 def _vec(np, rng, n, cplx):
     x = np.array([rng.uniform(-1, 1) for _ in range(n)])
     if cplx:
@@ -621,12 +674,13 @@ def oracle(ctx, deep=False, only=None):
         is_seg = not (_is_prefix(dom) and _is_prefix(dual))
         is_bary = bool(dom.is_barycentric or dual.is_barycentric)
         try:
-            A = f["mk"](dom, dual, dual, "dense").weak_form()
+            A, how = _dense_reference(f["mk"], dom, dual)
         except Exception as e:  # noqa
             # the dense operator itself is not available for this combination: nothing to compare with
             stats["skipped_unsupported"] += 1
             res.notes.append(f"dense {family}/{variant} not available: {type(e).__name__}: {str(e)[:100]}")
             return
+        stats["dense_via_base_spaces"] = stats.get("dense_via_base_spaces", 0) + int(how != "direct")
         stats["cases"] += 1
         stats["segment_cases"] += int(is_seg)
         stats["bary_cases"] += int(is_bary)
@@ -699,6 +753,16 @@ def oracle(ctx, deep=False, only=None):
             return
         margins["worst_rel_diff_potential"] = max(margins["worst_rel_diff_potential"], rel)
 
+    import time as _time
+    skipped_for_time = []
+
+    def budget_ok(what, limit=QUICK_BUDGET_S):
+        # quick tier only: optional items are started only while the run is within its time budget
+        if deep or _time.time() - ctx.t0 <= limit:
+            return True
+        skipped_for_time.append(what)
+        return False
+
     with fmmstub.scratch_cwd():
         fmmstub.clear_caches()
         gA = _mkgrid(api, grids["cube1"] if not deep else grids["cube2"])
@@ -706,6 +770,8 @@ def oracle(ctx, deep=False, only=None):
         gC = _mkgrid(api, grids["screen"], rng=ctx.rng)
         for family in fsel:
             f = fam[family]
+            if family != "lap_sl" and not budget_ok("family " + family):
+                continue
             compare(family, f, gA, gA, "whole", "same")
             compare(family, f, gA, gA, "segment", "same")
             if deep or family == "lap_sl":
@@ -716,13 +782,31 @@ def oracle(ctx, deep=False, only=None):
                 compare(family, f, gB, gA, "segment", "two-grids")
                 compare(family, f, gC, gC, "whole", "open-screen")
                 compare(family, f, gC, gC, "segment", "open-screen")
-            if deep or (family in ("lap_sl_dp0", "mh_sl", "helm_sl_ck", "lap_dl", "helm_dl", "mh_dl")):
+            if deep or (family in ("lap_sl_dp0", "mh_sl", "helm_sl_ck", "lap_dl", "helm_dl", "mh_dl")
+                        and budget_ok("dual test space for " + family)):
                 # dual (barycentric) test space: DUAL0 for DP0-type, DUAL1 for P1-type test spaces
                 compare(family, f, gA if not deep else gB, gA if not deep else gB, "bary-test", "same")
             if deep:
                 compare(family, f, gB, gB, "bary", "same")
+        # configurations of the near field / evaluator (the FMM interface cache does not key on them: clear it)
+        configs = [("near_field_representation", "sparse")]
+        if deep:
+            configs.append(("dense_evaluation", True))
+        for attr, val in configs:
+            old_val = getattr(api.GLOBAL_PARAMETERS.fmm, attr)
+            try:
+                setattr(api.GLOBAL_PARAMETERS.fmm, attr, val)
+                fmmstub.clear_caches()
+                for family in (["lap_sl"] + (["helm_dl_ck", "lap_adl"] if deep else [])):
+                    compare(family, fam[family], gA, gA, "whole", f"same/{attr}={val}")
+                    stats["config_cases"] = stats.get("config_cases", 0) + 1
+            finally:
+                setattr(api.GLOBAL_PARAMETERS.fmm, attr, old_val)
+                fmmstub.clear_caches()
         for name in psel:
             p = pots[name]
+            if name != "pot_lap_sl" and not budget_ok("potential " + name):
+                continue
             compare_potential(name, p, gA, "whole", "same")
             compare_potential(name, p, gA, "segment", "same")
             if deep:
@@ -740,8 +824,12 @@ def oracle(ctx, deep=False, only=None):
                     res.counterexample("near-field-neighbours-not-adjacent-pairs", f"element_neighbors of element {a} is "
                                        f"{lst}, elements sharing a vertex are {ref}", element=a)
                     break
-        _reference_vectors(ctx, api, res, deep, stats)
+        if budget_ok("recorded reference vector fmm_laplace_single", QUICK_BUDGET_S + 30):
+            _reference_vectors(ctx, api, res, deep, stats)
+        else:
+            res.stats["reference_vectors"] = "skipped in this quick run (time budget); run by the thorough tier"
         fmmstub.clear_caches()
+    res.stats["oracle_skipped_for_time_budget"] = skipped_for_time
     res.stats.update({"oracle_" + k: v for k, v in stats.items()})
     res.stats.update({"oracle_" + k: v for k, v in margins.items()})
     res.stats["oracle_tolerance"] = TOL
